@@ -467,6 +467,10 @@ func runC03(w *World, r *Report) {
 
 	// the pack is sorted by source time before it is re-timed (resetMsgPackTimestamp hands out new times by index)
 	r.importRules(runC01, "C03-", map[string]bool{"C01-R7": true})
+	// position timestamps agree with the pack's only when the positions the handler re-times are its own copies
+	// (C02-R2); time does not go back across a resume only when every channel resumes from its own checkpoint (C05-R4)
+	r.importRules(runC02, "C03-", map[string]bool{"C02-R2": true})
+	r.importRules(runC05, "C03-", map[string]bool{"C05-R4": true})
 
 	// ---------- R10: joining an existing channel entry never moves its clock back
 	r.Rule("C03-R10", "a second handler cannot set the channel clock back", "InitTSInfo: on an entry that already exists, cts is assigned the seek timestamp only under `cts == 0 || cts < c` (the store is dominated by a comparison of the entry's cts with the new value)", 1)
